@@ -195,7 +195,7 @@ func HashInjectiveAt(j int) {}
 
 // Concurrent names the read-only operations of a harness.  Under the executor it does nothing (the
 // operations have been run sequentially between Begin and AssertReadOnly, where the write set is
-// computed).  Natively it does nothing either, except in race-detector replays (VSYM_RACE=1, test
+// computed).  Natively it does nothing either, except in race-detector replays (place it right after Begin, so the operations meet the object untouched) (VSYM_RACE=1, test
 // binary built with -race): then every operation runs twice, all from separate goroutines.
 func Concurrent(ops ...func()) {
 	if os.Getenv("VSYM_RACE") != "1" {
